@@ -621,7 +621,8 @@ def x9(run):
         for bid, t in prog.calls(q):
             if Program.callee_name(t).endswith("svgbob_cli::convert_file") and len(t["args"]) == 2:
                 qex = qex or Expr(prog, q)
-                sites.append((q, t, strip(qex.operand(t["args"][0])), strip(qex.operand(t["args"][1]))))
+                # helpers of the CLI that build the paths (`svg_destination(out_dir, source)`) are replaced by what they return
+                sites.append((q, t, strip(qex.operand(t["args"][0])), strip(simplify(inline_calls(prog, qex.operand(t["args"][1]), crate="svgbob_cli", depth=2)))))
     if not sites:
         run.missing("C19.X9", "call of convert_file in build")
         return
